@@ -25,6 +25,7 @@ import Ymq.Lemmas.FIntRoot
 import Ymq.Lemmas.CrtLemmas
 import Ymq.Lemmas.PolyDft
 import Ymq.Lemmas.PolyZMod
+import Ymq.Lemmas.PolyMiddle
 
 namespace Ymq.C10
 open Ymq.PolySpec
@@ -495,5 +496,88 @@ theorem mul_karatsuba_zmod (n : Nat) (hn : 0 < n) (p q : List Nat) (hl : p.lengt
 example : mulKaratsuba (natOps 7) [1, 2, 3] [1, 1, 1] = some [1, 3, 6, 5, 3, 0] := by decide
 
 end Products
+
+/-! ## Middle product and power series: `_middlemul`, `_inv_mod_xn`, `_div_mod_xn` -/
+
+section Series
+open Ymq.PolyMul Polynomial
+
+/-- **`_middlemul` (Hanrot–Quercia–Zimmermann) is the middle slice of the product.** For `|q| = n`,
+`1 ≤ n ≤ 2^f` (fuel `f + 1`), `|p| = 2n - 1`, `|z| ≥ n`, scratch `≥ mmNeed n` (the exact requirement of
+the recursion: `2|p|` at every level) and an NTT context with `2n ≤ 2^k` if there is one, the model
+reaches no panic site and output `i` is coefficient `n - 1 + i` of `p·q`, over any commutative ring
+image of the coefficient operations — through `n = 1, 2`, the NTT shortcuts for `n` and `n - 1` a
+power of two (`_fft_midmul` is the exact cyclic convolution: the NTT itself is covered by K/O,
+`dft_conv`, `crt_*`), and the recursion `a - b`, `c + b`. -/
+theorem middlemul_spec {α R : Type} [CommRing R] {o : Ops α} {φ : α → R} (h : Hom o φ) (c : Ctx)
+    (f zlen : Nat) (p q : List α) (tmplen : Nat) (h1 : 1 ≤ q.length) (h2 : q.length ≤ 2 ^ f)
+    (hp : p.length = 2 * q.length - 1) (hz : q.length ≤ zlen) (ht : mmNeed q.length ≤ tmplen)
+    (hfit : Fits c q.length) :
+    ∃ m, middlemul c o (f + 1) zlen p q tmplen = some m ∧ m.length = q.length ∧
+      ∀ i, i < q.length →
+        φ (m.getD i o.zero) = (poly (p.map φ) * poly (q.map φ)).coeff (q.length - 1 + i) :=
+  Ymq.PolyMul.middlemul_spec h c f zlen p q tmplen h1 h2 hp hz ht hfit
+
+/-- the public `Poly::middlemul` (scratch `2|p| + 16`) for `1 ≤ |q| ≤ 2^15`; the scratch bounds:
+`mmNeed n ≤ 5n - 3` (what `_inv_mod_xn`/`_div_mod_xn` can offer) and `mmNeed n ≤ 4n + d` for
+`n ≤ 2^(d+1)` -/
+theorem middlemul_pub_spec {α R : Type} [CommRing R] {o : Ops α} {φ : α → R} (h : Hom o φ) (c : Ctx)
+    (p q : List α) (h1 : 1 ≤ q.length) (h2 : q.length ≤ 2 ^ 15) (hp : p.length = 2 * q.length - 1)
+    (hfit : Fits c q.length) :
+    (∃ m, middlemulPub c o p q = some m ∧ m.length = q.length ∧
+      ∀ i, i < q.length → φ (m.getD i o.zero) = (poly (p.map φ) * poly (q.map φ)).coeff (q.length - 1 + i)) ∧
+    (∀ n, 3 ≤ n → mmNeed n ≤ 5 * n - 3) ∧ (∀ d n, n ≤ 2 ^ (d + 1) → mmNeed n ≤ 4 * n + d) :=
+  ⟨middlemulPub_spec h c p q h1 h2 hp hfit, mmNeed_le, mmNeed_depth⟩
+
+/-- **`_inv_mod_xn`: `p · z ≡ 1 (mod x^len)`** for every `1 ≤ len ≤ min(2^f, 2^62)` (fuel `f + 1`),
+whenever `zn.inv(p[0])` succeeds, with scratch `≥ 4·len` and a large enough NTT context: no panic
+site is reached. The model follows the code after commit f80a81f: base cases of length 1, 2, 3,
+precision schedule `half_up = ⌈len/2⌉`, the `1 + xC` shortcut exactly under `z[0] == 1`,
+`half_up ≥ 2`, `len = 2·half_up - 1`, `half_up - 1` a power of two, the general branch on the
+zero-padded `p[1..]`, then the low product and the negation. -/
+theorem inv_mod_xn_spec {α R : Type} [CommRing R] {o : Ops α} {φ : α → R} (h : HomE o φ) (c : Ctx)
+    (f : Nat) (p : List α) (tmplen : Nat) (h1 : 1 ≤ p.length) (h2 : p.length ≤ 2 ^ f)
+    (h62 : p.length ≤ 2 ^ 62) (ht : 4 * p.length ≤ tmplen) (hfit : Fits c p.length)
+    (hinv : ∃ i, o.inv (p.getD 0 o.zero) = some i) :
+    ∃ z, invModXn c o (f + 1) p tmplen = some z ∧ z.length = p.length ∧
+      ∀ k, k < p.length → (poly (p.map φ) * poly (z.map φ)).coeff k = if k = 0 then 1 else 0 :=
+  invModXn_spec h c (middleSpec_holds h.toHom c) f p tmplen h1 h2 h62 ht hfit hinv
+
+/-- **`_div_mod_xn` / `Poly::div_mod_xn`: `q · z ≡ p (mod x^len)`** for equal lengths
+`1 ≤ len ≤ 2^62`, whenever `zn.inv(q[0])` succeeds; the public wrapper's scratch `6·len` (after the
+fix; `5·len` was one short for `len = 3`) always suffices. -/
+theorem div_mod_xn_spec {α R : Type} [CommRing R] {o : Ops α} {φ : α → R} (h : HomE o φ) (c : Ctx)
+    (p q : List α) (hl : p.length = q.length) (h1 : 1 ≤ q.length) (h62 : q.length ≤ 2 ^ 62)
+    (hfit : Fits c q.length) (hinv : ∃ i, o.inv (q.getD 0 o.zero) = some i) :
+    ∃ z, divModXnPub c o p q = some z ∧ z.length = q.length ∧
+      ∀ k, k < q.length → (poly (q.map φ) * poly (z.map φ)).coeff k = (poly (p.map φ)).coeff k := by
+  unfold divModXnPub
+  exact divModXn_spec h c (middleSpec_holds h.toHom c) p q (6 * p.length) hl h1 h62 (by omega)
+    (fun _ => by omega) hfit hinv
+
+/-- the same for what the driver runs (`natOps n`, `n > 0`; `invMod` is proved sound): the answer of
+the model of `Poly::div_mod_xn` satisfies `Σ_{a ≤ k} q[a]·z[k-a] ≡ p[k] (mod n)` for every `k < len`. -/
+theorem div_mod_xn_zmod (n : Nat) (hn : 0 < n) (c : Ctx) (p q : List Nat) (hl : p.length = q.length)
+    (h1 : 1 ≤ q.length) (h62 : q.length ≤ 2 ^ 62) (hfit : Fits c q.length)
+    (hinv : ∃ i, Ymq.PolySpec.invMod (q.getD 0 0) n = some i) :
+    ∃ z, divModXnPub c (natOps n) p q = some z ∧ z.length = q.length ∧
+      ∀ k, k < q.length →
+        ((mulCoef (fun i => q.getD i 0) (fun i => z.getD i 0) k : ℕ) : ZMod n) = ((p.getD k 0 : ℕ) : ZMod n) := by
+  obtain ⟨z, e, lz, hz⟩ := div_mod_xn_spec (natOps_homE n hn) c p q hl h1 h62 hfit hinv
+  refine ⟨z, e, lz, fun k hk => ?_⟩
+  have := hz k hk
+  rw [coeff_poly_mul, coeff_poly] at this
+  simp only [getD_map_hom (natOps_hom n hn)] at this
+  rw [show (natOps n).zero = 0 from rfl] at this
+  rw [← this]
+  unfold mulCoef
+  rw [Ymq.Kronecker.sumTo_eq]
+  push_cast
+  rfl
+
+example : divModXnPub (Ctx.new 1) (natOps 7) [1, 0, 0, 0] [1, 1, 1, 1] = some [1, 6, 0, 0] ∧
+    invModXn (Ctx.new 1) (natOps 7) FUEL [1, 1, 1, 1] 24 = some [1, 6, 0, 0] := by decide
+
+end Series
 
 end Ymq.C10
